@@ -211,7 +211,7 @@ class SchemaValidationContext:
         if not default_input:
             return
 
-        if not is_input_type(input_value.type):
+        if not has_only_input_types(input_value.type):
             return  # already reported, the default value cannot be validated
 
         errors: list[tuple[GraphQLError, list[str | int]]] = []
@@ -617,6 +617,23 @@ class SchemaValidationContext:
                 f"OneOf input field {type_}.{field_name} cannot have a default value.",
                 field.ast_node,
             )
+
+
+def has_only_input_types(type_: Any, _seen: set[str] | None = None) -> bool:
+    """Check whether a type and all of its (nested) input fields are input types."""
+    named_type = get_named_type(type_)
+    if not is_input_type(named_type):
+        return False
+    if is_input_object_type(named_type):
+        seen = set() if _seen is None else _seen
+        if named_type.name in seen:
+            return True
+        seen.add(named_type.name)
+        return all(
+            has_only_input_types(field.type, seen)
+            for field in named_type.fields.values()
+        )
+    return True
 
 
 def validate_default_input(
